@@ -85,6 +85,7 @@ type world struct {
 	store  func(r record.Record) // injected backends: the provider/storage takes over a value it is about to push
 	prov   *mapProvider
 	parks  *parkSet
+	burst  *burstPoint
 	jitter *jitter
 }
 
@@ -426,6 +427,8 @@ func installHooks(w *world) {
 	case w.jitter != nil:
 		vhook.Set("db.put.prenotify", w.jitter.at)
 		vhook.Set("db.sub.cancel", w.jitter.at)
+	case w.burst != nil:
+		vhook.Set("db.sub.cancel", w.burst.at)
 	}
 }
 
